@@ -51,7 +51,7 @@ let () = iter_lines (fun line ->
            end else begin
              match forward_block !cf q a with
              | None -> print_endline "rt trap"
-             | Some coefs -> Printf.printf "rt %s | %s | simd=%d\n" (zs coefs) (zs (inverse_block !cf q coefs)) (simd_flag true)
+             | Some coefs -> Printf.printf "rt %s | %s | %s | simd=%d\n" (zs (fdct_islow !cf (convsamp !cf a))) (zs coefs) (zs (inverse_block !cf q coefs)) (simd_flag true)
            end
        | _ -> Printf.printf "%s badcase\n" cmd)
   | ["rlt"; lo; hi] ->
